@@ -372,5 +372,64 @@ Proof.
       * apply IHf; assumption.
       * split; [reflexivity|split; [eapply cache_bd_same; [|exact W2]; reflexivity|exact I]].
 Qed.
+
+Lemma fos_unc st fd : cache_bd st -> off fd <= M ->
+  find_optimal_solution W lvs fm cs lv st ws fd = find_optimal_solution_inf W lvs fm csi lv st ws fd
+  /\ cache_bd (fst (find_optimal_solution W lvs fm cs lv st ws fd)) /\ sres_NB (snd (find_optimal_solution W lvs fm cs lv st ws fd)).
+Proof.
+  intros Hst Hoff. unfold find_optimal_solution, find_optimal_solution_inf.
+  assert (Hcase : lv_recs lv = [] \/ exists r rest, lv_recs lv = r :: rest) by (destruct (lv_recs lv) as [|r rest]; [left; reflexivity|right; exists r, rest; reflexivity]).
+  destruct Hcase as [Hrecs|(r & rest & Hrecs)]; rewrite Hrecs; [split; [reflexivity|split; [exact Hst|cbn; discriminate]]|].
+  assert (Hr : In r (lv_recs lv)) by (rewrite Hrecs; left; reflexivity).
+  destruct (Hrec i lv r Hi Hr) as (Hsl & Hml & Hsw). destruct Hws as (Hw1 & Hw2).
+  set (fb := match fd with FD_Break => _ | FD_Continue line_length can_break => _ end).
+  assert (Hfb : snd (fst fb) <= M + m).
+  { subst fb. destruct fd as [|o cb]; cbn [off] in Hoff.
+    - destruct (bid _); cbn [fst snd]; destruct (tr_ml r) as [x|]; try (specialize (Hml x eq_refl); lia); [lia|].
+      pose proof (lws_len_mono W (fst ws) (snd ws) IB CB ltac:(lia) ltac:(nia)) as Hmono. unfold Wb in HM. destruct ws; cbn [fst snd] in *. lia.
+    - cbn [fst snd]. destruct (tr_ml r) as [x|]; [specialize (Hml x eq_refl); lia|lia]. }
+  destruct fb as [[ib lll] bcb]. cbn [fst snd] in Hfb.
+  destruct (bid _ && negb ib); [split; [reflexivity|split; [exact Hst|exact I]]|].
+  assert (Hps : 1 + kq r + psum rest = psum (lv_recs lv)) by (rewrite Hrecs; cbn [psum fold_right]; fold (psum rest); unfold rspan, kq; lia).
+  assert (Hps' : m * psum (lv_recs lv) = m + m * kq r + m * psum rest) by (rewrite <- Hps; lia).
+  assert (Hpen : decision_penalty W (lv_type lv) r 0 ib lll = decision_penalty_inf lv r 0 ib).
+  { unfold decision_penalty, decision_penalty_inf. destruct ib; [reflexivity|].
+    replace (w_max W <? lll) with false; [reflexivity|]. symmetry. apply N.ltb_ge. lia. }
+  rewrite Hpen. rewrite (proj1 (Hwf i lv Hi)).
+  destruct (cls_unc st r [] 0 ws [TDec (if ib then WBreak 0 else WContinue) lll []]
+              (dt_upd 1 (fun s0 => mkSt (s_broken s0) bcb (s_child s0) (s_oepl s0) (s_bar s0)) PLeaf) 1 lll 0 (M + m) Hr
+              (conj Hw1 Hw2) ltac:(lia) ltac:(intros c E; cbn in E; discriminate) Hfb ltac:(lia) ltac:(lia) Hst) as (E1 & E2 & E3).
+  rewrite <- E1. destruct (child_lines_solutions W lvs cs st i r _ _ _ _ _ _ _ _) as [st1 sols]. cbn [fst snd] in *.
+  apply main_loop_unc; [exact E2|].
+  apply heap_extend_all; [exact I|].
+  assert (Hkl : kids_last (match last_opt' sols with Some k0 => k0 | None => [] end) <= M + m + m * kq r).
+  { unfold last_opt'. destruct (rev sols) as [|v rv] eqn:Erev; [cbn; lia|].
+    rewrite Forall_forall in E3. apply E3. apply in_rev. rewrite Erev. left; reflexivity. }
+  apply Forall_forall. intros n Hn. apply in_map_iff in Hn. destruct Hn as (x & <- & _).
+  split; [reflexivity|]. split.
+  - exists [r]. cbn [n_rest rev app]. split; [symmetry; exact Hrecs|].
+    unfold last_line_length_of. cbn [n_decs td_lll td_kids]. fold (kids_last (match last_opt' sols with Some k0 => k0 | None => [] end)).
+    cbn [psum fold_right]. unfold rspan. fold (kq r). nia.
+  - intros t c [<-|[]] Ht. cbn [td_dec] in Ht. destruct ib; [injection Ht as <-; lia|discriminate].
+Qed.
 End Child.
+
+(* the search is the width-free search under the bound, at every child depth; the cache stays bounded *)
+Theorem solve_unc : forall k st lv j ws fd, nth_error lvs j = Some lv -> cache_bd st -> cpre k j ws fd ->
+  solve W lvs fm k st lv ws fd = solve_inf W lvs fm k st lv ws fd
+  /\ cache_bd (fst (solve W lvs fm k st lv ws fd)) /\ cpost j fd (snd (solve W lvs fm k st lv ws fd)).
+Proof.
+  induction k as [|k IHk]; intros st lv j ws fd Hj Hst (Hws & Hmax); cbn [solve solve_inf].
+  - split; [reflexivity|]. split; [exact Hst|]. intros s l E. discriminate.
+  - pose proof (Hspan j lv Hj) as Hsp.
+    destruct (fos_unc k (solve W lvs fm k) (solve_inf W lvs fm k) IHk j lv Hj ws (N.max (off fd) Wb) Hws ltac:(lia) ltac:(nia) st fd Hst ltac:(lia)) as (F1 & F2 & F3).
+    rewrite <- F1. destruct (find_optimal_solution W lvs fm (solve W lvs fm k) lv st ws fd) as [st1 res]. cbn [fst snd] in *.
+    split; [reflexivity|]. split; [exact F2|]. intros s l E Hl. destruct res as [s1| | |]; try discriminate. injection E as <-.
+    specialize (F3 l Hl). nia.
+Qed.
+
+Lemma cache_bd_init : cache_bd sst_init.
+Proof. intros key v []. Qed.
 End Unc.
+
+Print Assumptions solve_unc.
